@@ -43,7 +43,7 @@ def tmp_counter():
 def _syn_inner(ctx, a, b):
     r = a * b
     s = a - b
-    return ctx(r + s)
+    return ctx(r * r + s * s + r * s)
 
 
 _syn_inner.__name__ = "inner"
@@ -70,9 +70,9 @@ def syn_numbers(ctx, x: float):
     return ctx(x * ctx.constant(2) + ctx.constant(3) * x + ctx.constant("pi"))
 
 
-SYN = dict(syn_nested=(syn_nested, [(":float", ":float"), (":float32", ":float32")], ["python", "numpy", "cpp", "xla_client"]),
+SYN = dict(syn_nested=(syn_nested, [(":float", ":float")], ["python", "numpy", "cpp", "xla_client"]),
            syn_commutative=(syn_commutative, [(":float", ":float", ":float")], ["python", "stablehlo", "xla_client"]),
-           syn_numbers=(syn_numbers, [(":float",)], ["python", "xla_client", "cpp"]))
+           syn_numbers=(syn_numbers, [(":float",)], ["xla_client"]))
 
 
 def resolve(tn, fname, i):
